@@ -262,13 +262,29 @@ def inClassN3 (s : Bytes) : Bool :=
   | some p => !p.hex && (mantDigits s).1.length > 800
   | none => false
 
+/-- THE OTHER PIECE OF `decimal.set` THAT IS MIRRORED: its exponent digit loop stops accumulating
+at `e >= 10000` (`if e < 10000 { e = e*10 + digit }`), exactly like `readFloat`'s (`expLoop`).
+An exponent literal below 100000 is therefore read exactly; of a longer one only the first five
+significant digits are kept. `clampGap s` = (clamped literal − literal), signed like the
+exponent: what has to be added to the specification's exponent to get the code's. It only matters
+when the mantissa text compensates it (about 9 700 digits or zeros), see notes/C03.md. -/
+def clampGap (s : Bytes) : Int :=
+  let u := Spec.NumText.strip (Spec.NumText.splitSign s).2
+  let r2 := match u.dropWhile Spec.NumText.isDec with
+    | 46 :: r' => r'.dropWhile Spec.NumText.isDec
+    | _ => u.dropWhile Spec.NumText.isDec
+  match r2 with
+  | _ :: r3 =>
+    (if (Spec.NumText.splitSign r3).1 then -1 else 1) *
+      ((((Spec.NumText.splitSign r3).2.foldl (fun a c => if a < 10000 then a * 10 + (c.toNat - 48) else a) 0 : Nat) : Int)
+        - (Spec.NumText.valOf 10 (Spec.NumText.splitSign r3).2 : Int))
+  | [] => 0
+
 /-- `var d decimal; d.set(s); d.floatBits(&float64info)`: replaced by the specification of the
 decimal grammar and of correct rounding. A hex-prefixed text never succeeds here (`d.set`
 stops at the `x`). The two "obvious overflow/underflow" exits of `floatBits` (`d.dp > 310`,
 `d.dp < -330`, where `d.dp` = number of significant digits + exponent) are mirrored so that the
-model never has to evaluate 10^(10^12); `d.set` clamps the exponent literal at `e < 10000`
-before adding it to `dp`, which cannot be told apart from the unclamped sum here unless the
-mantissa text itself is thousands of bytes long (not generated; stated in notes/C03.md). -/
+model never has to evaluate 10^(10^12); `d.set` clamps the exponent literal (`clampGap`). -/
 def slowPath (s : Bytes) : FloatRes :=
   match Spec.NumText.recognise s with
   | none => ⟨0, some .syntax⟩
@@ -276,6 +292,7 @@ def slowPath (s : Bytes) : FloatRes :=
     if p.hex then ⟨0, some .syntax⟩
     else
       let (m, e) := decimalCap s p
+      let e := e + clampGap s
       if m == 0 then ⟨F64.zero p.neg, none⟩
       else
         let dp : Int := ((Nat.toDigits 10 m).length : Int) + e
